@@ -398,3 +398,136 @@ Qed.
 Theorem hangs_iff_spec_undefined fx fuel l :
   run fx fuel pre_init (program l) = None <-> spec fx fuel (program l) = None.
 Proof. apply run_hangs_iff. Qed.
+
+(* ---------- one shape per drawing call, in order ---------- *)
+Definition is_gridn (c : cmd) : bool := match c with CGridn _ _ => true | _ => false end.
+
+Lemma spec_one_shape fx fuel kk c :
+  is_draw c = true -> is_gridn c = false -> exists sh, spec_shapes fx fuel kk c = Some [sh].
+Proof. destruct c; simpl; intros H1 H2; try discriminate; eexists; reflexivity. Qed.
+
+Lemma spec_no_shape fx fuel kk c : is_draw c = false -> spec_shapes fx fuel kk c = Some [].
+Proof. destruct c; simpl; intro H; try discriminate; reflexivity. Qed.
+
+Lemma spec_grid_shapes fx fuel kk u s :
+  spec_shapes fx fuel kk (CGridn u s) = option_map (map (spec_grid_line (kpen kk) s)) (grid_lines fuel u).
+Proof. simpl. destruct (grid_lines fuel u); reflexivity. Qed.
+
+Lemma spec_count fx fuel l : forall kk out,
+  forallb (fun c => negb (is_gridn c)) l = true ->
+  spec_from fx fuel kk l = Some out ->
+  List.length out = List.length (filter is_draw l).
+Proof.
+  induction l as [|c t IH]; intros kk out NG S; simpl in *.
+  - inversion S. reflexivity.
+  - apply andb_true_iff in NG as [NG1 NG2]. apply negb_true_iff in NG1.
+    destruct (spec_shapes fx fuel kk c) as [a|] eqn:SS; [|discriminate].
+    destruct (spec_from fx fuel (core_step fx kk c) t) as [b|] eqn:SF; [|discriminate].
+    inversion S; subst. rewrite app_length, (IH _ _ NG2 SF).
+    destruct (is_draw c) eqn:D.
+    + destruct (spec_one_shape fx fuel kk c D NG1) as [sh E]. rewrite E in SS. inversion SS. reflexivity.
+    + rewrite (spec_no_shape fx fuel kk c D) in SS. inversion SS. reflexivity.
+Qed.
+
+(* ---------- histories on which the present code has no local deviation ---------- *)
+Definition no_dev (c : cmd) : bool :=
+  match c with CEllipse _ _ _ _ _ | CText _ => false | _ => true end.
+Definition agree (a b : core) : Prop := cx a = cx b /\ cy a = cy b /\ kpen a = kpen b.
+
+Lemma spec_shapes_nodev fuel a b c :
+  no_dev c = true -> agree a b -> spec_shapes false fuel a c = spec_shapes true fuel b c.
+Proof.
+  intros N [X [Y P]]. destruct c; simpl in *; try discriminate; rewrite ?X, ?Y, ?P; reflexivity.
+Qed.
+
+Lemma core_step_agree a b c : agree a b -> agree (core_step false a c) (core_step true b c).
+Proof.
+  intros [X [Y P]]. unfold agree. destruct c; simpl; rewrite ?X, ?Y, ?P; auto.
+Qed.
+
+Lemma spec_from_nodev fuel l : forall a b,
+  forallb no_dev l = true -> agree a b -> spec_from false fuel a l = spec_from true fuel b l.
+Proof.
+  induction l as [|c t IH]; intros a b N A; simpl in *; [reflexivity|].
+  apply andb_true_iff in N as [N1 N2].
+  rewrite (spec_shapes_nodev fuel a b c N1 A), (IH _ _ N2 (core_step_agree a b c A)). reflexivity.
+Qed.
+
+Theorem shows_what_was_drawn_guarded fuel l st :
+  run false fuel pre_init (program l) = Some st ->
+  guard fuel pre_init (program l) = true ->
+  forallb no_dev l = true ->
+  spec true fuel (program l) = Some (flatten (render false st)).
+Proof.
+  intros R G N. rewrite <- (shows_what_was_drawn_asis fuel l st R G).
+  unfold spec. symmetry. apply spec_from_nodev; [exact N | repeat split].
+Qed.
+
+(* ---------- gridn's loop ---------- *)
+(* Termination, stated over the abstract condition: some natural-number
+   measure of the loop variable strictly decreases at every round that is
+   entered.  (Over binary64 "unit > 0" is NOT sufficient: i + unit = i once
+   unit < ulp(i)/2, e.g. unit = 1e-17.) *)
+Lemma grid_loop_terminates u (m : float -> nat) :
+  (forall i, PrimFloat.leb i grid_bound = true -> (m (fadd i u) < m i)%nat) ->
+  forall n i cnt, (m i <= n)%nat -> exists l, grid_loop (S n) i u cnt = Some l.
+Proof.
+  intros Hm. induction n as [|n IH]; intros i cnt Hi.
+  - simpl. destruct (PrimFloat.leb i grid_bound) eqn:E; [|eexists; reflexivity].
+    specialize (Hm i E). lia.
+  - change (grid_loop (S (S n)) i u cnt) with
+      (if PrimFloat.leb i grid_bound then
+         match grid_loop (S n) (fadd i u) u (S cnt) with
+         | Some r =>
+             let h := float_of_Z (c_evyHeight * c_scaleFactor) in
+             let w := float_of_Z (c_evyWidth * c_scaleFactor) in
+             let thick := Nat.eqb (Nat.modulo cnt grid_thick_every) 0 in
+             Some ((GLine i 0%float i h, thick) :: (GLine 0%float i w i, thick) :: r)
+         | None => None
+         end
+       else Some []).
+    destruct (PrimFloat.leb i grid_bound) eqn:E; [|eexists; reflexivity].
+    specialize (Hm i E). destruct (IH (fadd i u) (S cnt)) as [r Hr]; [lia|].
+    rewrite Hr. eexists; reflexivity.
+Qed.
+
+Theorem gridn_terminates_if_measure unit (m : float -> nat) :
+  (forall i, PrimFloat.leb i grid_bound = true -> (m (fadd i (tx unit)) < m i)%nat) ->
+  exists fuel l, grid_lines fuel unit = Some l.
+Proof.
+  intro Hm. destruct (grid_loop_terminates (tx unit) m Hm (m 0%float) 0%float O (le_n _)) as [l Hl].
+  exists (S (m 0%float)), l. exact Hl.
+Qed.
+
+(* the loop variable does not move: the loop never ends *)
+Lemma grid_loop_stuck u i :
+  PrimFloat.leb i grid_bound = true -> fadd i u = i -> forall fuel cnt, grid_loop fuel i u cnt = None.
+Proof.
+  intros B S. induction fuel as [|f IH]; intro cnt; simpl; [reflexivity|].
+  rewrite B, S, IH. reflexivity.
+Qed.
+
+Lemma gridn_zero_never_ends : forall fuel, grid_lines fuel 0%float = None.
+Proof. intro fuel. apply grid_loop_stuck; vm_compute; reflexivity. Qed.
+
+Lemma gridn_neg_infinity_never_ends : forall fuel, grid_lines fuel neg_infinity = None.
+Proof.
+  intros [|f]; [reflexivity|]. unfold grid_lines. simpl.
+  replace (PrimFloat.leb 0 grid_bound) with true by (vm_compute; reflexivity).
+  replace (fadd 0 (tx neg_infinity)) with neg_infinity by (vm_compute; reflexivity).
+  rewrite grid_loop_stuck; [reflexivity | vm_compute; reflexivity | vm_compute; reflexivity].
+Qed.
+
+(* non-vacuity of the measure hypothesis: unit = NaN (0/0): the loop body runs once *)
+Lemma nan_measure :
+  forall i, PrimFloat.leb i grid_bound = true ->
+            ((fun x => if PrimFloat.leb x grid_bound then 1 else 0) (fadd i (tx nan)) <
+             (fun x => if PrimFloat.leb x grid_bound then 1 else 0) i)%nat.
+Proof.
+  intros i E. cbv beta. rewrite E.
+  assert (N : Prim2SF (fadd i (tx nan)) = SpecFloat.S754_nan).
+  { unfold fadd. rewrite add_spec.
+    replace (Prim2SF (tx nan)) with SpecFloat.S754_nan by (vm_compute; reflexivity).
+    unfold SF64add, SpecFloat.SFadd. destruct (Prim2SF i); reflexivity. }
+  rewrite leb_spec, N. simpl. lia.
+Qed.
